@@ -571,6 +571,15 @@ type queueDelivery struct {
 }
 
 func (qd *queueDelivery) AddRcpt(ctx context.Context, rcptTo string, _ smtp.RcptOptions) error {
+	// Duplicated recipients are silently ignored as module.Delivery
+	// recommends. All per-recipient state (TriesCount, RcptErrs, delivery
+	// results) is keyed by the address so two entries for the same address
+	// cannot be tracked independently.
+	for _, rcpt := range qd.meta.To {
+		if rcpt == rcptTo {
+			return nil
+		}
+	}
 	qd.meta.To = append(qd.meta.To, rcptTo)
 	return nil
 }
